@@ -104,6 +104,30 @@ type Parser struct {
 	trace     bool
 	indent    int
 	traceOut  io.Writer
+	nestLev   int // current nesting depth of expressions and statements
+}
+
+// maxNestLev is the deepest the parser is willing to recurse, as in Go's
+// parser: a deeper nesting of expressions or statements would exhaust the
+// goroutine stack (in the parser or in whatever walks the tree afterwards),
+// which cannot be recovered from.
+const maxNestLev = 100000
+
+func incNestLev(p *Parser) *Parser {
+	p.nestLev++
+	if p.nestLev > maxNestLev {
+		// not through p.error: it must not be discarded as a second error
+		// on the same line
+		p.errors.Add(p.file.Position(p.pos), "exceeded max nesting depth")
+		panic(bailout{})
+	}
+	return p
+}
+
+// decNestLev is used along with incNestLev in the same fashion as untracep
+// and tracep.
+func decNestLev(p *Parser) {
+	p.nestLev--
 }
 
 // NewParser creates a Parser.
@@ -176,7 +200,12 @@ func (p *Parser) parseBinaryExpr(prec1 int) Expr {
 
 	x := p.parseUnaryExpr()
 
-	for {
+	// the nesting is tracked here rather than at the entry of the function:
+	// the loop produces a nested tree iteratively
+	var n int
+	defer func() { p.nestLev -= n }()
+	for n = 1; ; n++ {
+		incNestLev(p)
 		op, prec := p.token, p.token.Precedence()
 		if prec < prec1 {
 			return x
@@ -214,6 +243,7 @@ func (p *Parser) parseUnaryExpr() Expr {
 	if p.trace {
 		defer untracep(tracep(p, "UnaryExpression"))
 	}
+	defer decNestLev(incNestLev(p))
 
 	switch p.token {
 	case token.Add, token.Sub, token.Not, token.Xor:
@@ -236,8 +266,12 @@ func (p *Parser) parsePrimaryExpr() Expr {
 
 	x := p.parseOperand()
 
+	// selector, index and call chains produce a nested tree iteratively
+	var n int
+	defer func() { p.nestLev -= n }()
 L:
-	for {
+	for n = 1; ; n++ {
+		incNestLev(p)
 		switch p.token {
 		case token.Period:
 			p.next()
@@ -678,6 +712,7 @@ func (p *Parser) parseStmt() (stmt Stmt) {
 	if p.trace {
 		defer untracep(tracep(p, "Statement"))
 	}
+	defer decNestLev(incNestLev(p))
 
 	switch p.token {
 	case // simple statements
@@ -805,6 +840,7 @@ func (p *Parser) parseIfStmt() Stmt {
 	if p.trace {
 		defer untracep(tracep(p, "IfStmt"))
 	}
+	defer decNestLev(incNestLev(p))
 
 	pos := p.expect(token.If)
 	init, cond := p.parseIfHeader()
